@@ -95,4 +95,8 @@ def MATCH(
             return i or xlerrors.NaExcelError(
                 "No greater value found."
             )
+    if match_type in (1, -1) and lookup_array:
+        # Every value is on the near side of `lookup_value`, so the last
+        # position is the closest one.
+        return len(lookup_array)
     return xlerrors.NaExcelError("No match found.")
